@@ -9,7 +9,7 @@ import (
 func init() { register("C01", propC01) }
 
 func propC01(c *Ctx) {
-	c.Explanation = "Decides structural necessary conditions of the byte-stream property for all inputs and schedules: (R1) the segment invariant 'first byte of data has sequence number sequenceNumber' - every front trim of a segment's data is paired, under the same guards and with the same amount, with an advance of that segment's sequence number (receiver trim of already-received bytes, sender split at window/MSS boundaries, sender partial-ACK trim); (R2) ownership for all schedules: every access to sender/receiver state happens with endpoint.workMu held (must-lockset with held-at-entry fixpoint over the call graph; frozen entry assumptions for the worker goroutines; three reviewed cut edges/exceptions), and the queues shared with the application (rcvList/rcvBufUsed/..., sndQueue/sndBufUsed/..., segmentQueue) are touched only under their mutexes; (R3) hand-off discipline: the complete reviewed site tables of receiver.consumeSegment, receiver.handleRcvdSegment, endpoint.readyToRead, readLocked and the sender's split/advance sites - data reaches the reader only through readyToRead(PushBack) from consumeSegment, exactly when the segment contains rcvNxt, rcvNxt advances by exactly the bytes handed over, parked segments are consumed with their own sequence number and length, the reader takes the front segment view by view; (R4) no raw ordering of sequence numbers in package tcp. (R5) link typestate: no function reads the list links of a segment after removing it from its list unless segmentList.Remove preserves the removed element's links, so cursor fix-ups such as writeNext = seg.Next() yield the true successor; the sender's sequence variables start at iss+1 (newSender rows of R3). (R6) a segment's sequence-space length is payload + SYN + FIN, all four flag combinations on their own paths (shared with C03/H8, C02/W7); R3 also tables segment.clone (sequence number, flags, own view list), segment.parse (fields from the header getters, payload after the data offset) and the receiver's first expected byte irs+1. (R7) the out-of-order heap's container/heap implementation and the segment reference counter are exactly the reviewed ones. NOT decided: that acceptance, trimming amounts, heap order and retransmission produce the right bytes over all fault schedules (numerical relations between runtime values), nothing about the peer or the wire."
+	c.Explanation = "Decides structural necessary conditions of the byte-stream property for all inputs and schedules: (R1) the segment invariant 'first byte of data has sequence number sequenceNumber' - every front trim of a segment's data is paired, under the same guards and with the same amount, with an advance of that segment's sequence number (receiver trim of already-received bytes, sender split at window/MSS boundaries, sender partial-ACK trim); (R2) ownership for all schedules: every access to sender/receiver state happens with endpoint.workMu held (must-lockset with held-at-entry fixpoint over the call graph; frozen entry assumptions for the worker goroutines; three reviewed cut edges/exceptions), and the queues shared with the application (rcvList/rcvBufUsed/..., sndQueue/sndBufUsed/..., segmentQueue) are touched only under their mutexes; (R3) hand-off discipline: the complete reviewed site tables of receiver.consumeSegment, receiver.handleRcvdSegment, endpoint.readyToRead, readLocked and the sender's split/advance sites - data reaches the reader only through readyToRead(PushBack) from consumeSegment, exactly when the segment contains rcvNxt, rcvNxt advances by exactly the bytes handed over, parked segments are consumed with their own sequence number and length, the reader takes the front segment view by view; (R4) no raw ordering of sequence numbers in package tcp. (R5) link typestate: no function reads the list links of a segment after removing it from its list unless segmentList.Remove preserves the removed element's links, so cursor fix-ups such as writeNext = seg.Next() yield the true successor; the sender's sequence variables start at iss+1 (newSender rows of R3). (R6) a segment's sequence-space length is payload + SYN + FIN, all four flag combinations on their own paths (shared with C03/H8, C02/W7); R3 also tables segment.clone (sequence number, flags, own view list), segment.parse (fields from the header getters, payload after the data offset) and the receiver's first expected byte irs+1. (R7) the out-of-order heap's container/heap implementation and the segment reference counter are exactly the reviewed ones. (R8) the generated segment list is a correct doubly-linked list; R3 also holds Write's queueing row (non-empty payload, buffer room). NOT decided: that acceptance, trimming amounts, heap order and retransmission produce the right bytes over all fault schedules (numerical relations between runtime values), nothing about the peer or the wire."
 	c.Assumptions = []string{
 		"newEndpoint returns with workMu locked; protocolMainLoop/protocolListenLoop own it from their first instruction (frozen entry assumption, rule R2-entry)",
 		"field loads of sender/receiver state are stable while workMu is held",
@@ -103,6 +103,13 @@ func propC01(c *Ctx) {
 		}
 		sp = append(sp, SiteSpec{Kind: "store", Target: "tcp.sender.maxSentAck", Args: []string{"new(tcp.sender)", "($2 + 1)"}, Guards: []string{}, Exact: true, N: 1, Why: "the peer's SYN consumed irs"})
 		c.CheckSitesPresent(r3, fn, sp)
+	}
+	if fn := c.Fn(r3, "(*tcp.endpoint).Write"); fn != nil {
+		pl := "iface:tcpip.Payload.Get($1, ($0.sndBufSize - $0.sndBufUsed))"
+		g := []string{"!$0.sndClosed", "!(0 == iface:tcpip.Payload.Size($1))", "($0.state == 4)", "!(($0.sndBufSize - $0.sndBufUsed) < 1)", "(" + pl + "#1 == nil)"}
+		c.CheckSitesPresent(r3, fn, []SiteSpec{
+			{Kind: "call", Target: "(*tcp.segmentList).PushBack", Args: []string{"&$0.sndQueue", "tcp.newSegmentFromView(&$0.route, $0.id, " + pl + "#0)"}, Guards: g, Exact: true, N: 1, Why: "Write queues a segment only for a non-empty payload and only when at least one byte of buffer room is left: sendData takes an EMPTY queued segment for the FIN, so an empty one would truncate the stream (shared table with C02/W1)"},
+		})
 	}
 	if fn := c.Fn(r3, "(*tcp.segment).parse"); fn != nil {
 		h := "buffer.VectorisedView.First($0.data)"
